@@ -60,13 +60,13 @@ func InstantToString(val *dtpb.Instant) string {
 	if tm, err := InstantToTime(val); err == nil {
 		switch val.GetPrecision() {
 		case dtpb.Instant_SECOND:
-			return tm.Format("2006-01-02T15:04:05"+zoneLayout(val.GetTimezone()))
+			return tm.Format("2006-01-02T15:04:05" + zoneLayout(val.GetTimezone()))
 		case dtpb.Instant_MILLISECOND:
-			return tm.Format("2006-01-02T15:04:05.000"+zoneLayout(val.GetTimezone()))
+			return tm.Format("2006-01-02T15:04:05.000" + zoneLayout(val.GetTimezone()))
 		case dtpb.Instant_MICROSECOND:
 			fallthrough
 		default:
-			return tm.Format("2006-01-02T15:04:05.000000"+zoneLayout(val.GetTimezone()))
+			return tm.Format("2006-01-02T15:04:05.000000" + zoneLayout(val.GetTimezone()))
 		}
 	}
 	// Fall-back to a basic representation (this shouldn't happen unless timezone
@@ -89,13 +89,13 @@ func DateTimeToString(val *dtpb.DateTime) string {
 		case dtpb.DateTime_DAY:
 			return tm.Format("2006-01-02")
 		case dtpb.DateTime_SECOND:
-			return tm.Format("2006-01-02T15:04:05"+zoneLayout(val.GetTimezone()))
+			return tm.Format("2006-01-02T15:04:05" + zoneLayout(val.GetTimezone()))
 		case dtpb.DateTime_MILLISECOND:
-			return tm.Format("2006-01-02T15:04:05.000"+zoneLayout(val.GetTimezone()))
+			return tm.Format("2006-01-02T15:04:05.000" + zoneLayout(val.GetTimezone()))
 		case dtpb.DateTime_MICROSECOND:
 			fallthrough
 		default:
-			return tm.Format("2006-01-02T15:04:05.000000"+zoneLayout(val.GetTimezone()))
+			return tm.Format("2006-01-02T15:04:05.000000" + zoneLayout(val.GetTimezone()))
 		}
 	}
 
